@@ -1,1 +1,139 @@
+/-
+  Property C03 — ABI decode inverts encode, and JSON output round-trips in every serializer mode.
+  Model: FFS.Model.Abi.decode / decodeElem (abidecode.go), serInt / serBytes (outputserialization.go).
+  Proved here:
+  * `int_word_roundtrip`   : every int<M> value read back from its 32-byte two's-complement word is the value
+                             (ParseInt256TwosComplementBytes ∘ SerializeInt256TwosComplementBytes = id on [-2^255, 2^255)).
+  * `uint_word_roundtrip`  : every uint<M> / address / bool value read back from the low M/8 bytes of its word is the
+                             value, for every width the type parser admits.
+  * `number_only_if_exact` : in the "number if it fits" mode an integer is emitted as a JSON number exactly when
+                             |z| ≤ 2^53 − 1, otherwise as a string — never a rounded number.
+  PARTIAL: decode(enc(v)) = v for whole value trees (head/tail offsets, arrays, tuples, dynamic bytes) and the JSON
+  round trip through the parser are decided by the correspondence run (Tier A: the implementation decodes the Lean
+  *specification* encoding of generated values to exactly those values, for all serializer modes), not proved here.
+  The encoder half — enc is what the code produces — is C02.encode_eq_spec.
+-/
 import FFS.Model.AbiIO
+import FFS.Lemmas.Bytes
+namespace FFS.Props.C03
+open FFS FFS.Model.Abi
+
+theorem two256 : (256 : Nat) ^ 32 = 2 ^ 256 := by rw [show (256 : Nat) = 2 ^ 8 from rfl, ← Nat.pow_mul]
+
+/-- **int<M> words round-trip.** -/
+theorem int_word_roundtrip (z : Int) (hlo : -(2 : Int) ^ 255 ≤ z) (hhi : z < 2 ^ 255) :
+    parseInt256 (serializeInt256 z) = z := by
+  unfold parseInt256 serializeInt256
+  have hpos : (0 : Int) < 2 ^ 256 := Int.pow_pos (by decide)
+  have hnn : 0 ≤ z % 2 ^ 256 := Int.emod_nonneg _ (by omega)
+  have hlt : z % 2 ^ 256 < 2 ^ 256 := Int.emod_lt_of_pos _ hpos
+  have hnat : ((z % 2 ^ 256).toNat : Int) = z % 2 ^ 256 := Int.toNat_of_nonneg hnn
+  have hn : (z % 2 ^ 256).toNat < 256 ^ 32 := by
+    rw [two256]
+    have : (((z % 2 ^ 256).toNat : Nat) : Int) < ((2 ^ 256 : Nat) : Int) := by rw [hnat]; simpa using hlt
+    exact Int.ofNat_lt.mp this
+  rw [fromBE_toBE, Nat.mod_eq_of_lt hn]
+  simp only [hnat]
+  have h2 : (2 : Int) ^ 256 = 2 * 2 ^ 255 := by rw [← Int.pow_succ']
+  have e255 : (2 : Int) ^ 255 = 57896044618658097711785492504343953926634992332820282019728792003956564819968 := by decide
+  have e256 : (2 : Int) ^ 256 = 115792089237316195423570985008687907853269984665640564039457584007913129639936 := by decide
+  by_cases hz : 0 ≤ z
+  · have : z % 2 ^ 256 = z := Int.emod_eq_of_lt hz (by omega)
+    rw [this]
+    have hlt' : z < 2 ^ 255 := hhi
+    rw [if_pos hlt']
+  · have : z % 2 ^ 256 = z + 2 ^ 256 := by
+      have h1 : (z + 2 ^ 256) % 2 ^ 256 = z % 2 ^ 256 := by simp
+      rw [← h1]
+      exact Int.emod_eq_of_lt (by omega) (by omega)
+    rw [this]
+    have hnlt : ¬ (z + 2 ^ 256 < 2 ^ 255) := by omega
+    rw [if_neg hnlt]
+    omega
+
+theorem fromBE_drop_toBE : ∀ (w k v : Nat), k ≤ w → fromBE ((toBE w v).drop k) = v % 256 ^ (w - k) := by
+  intro w
+  induction w with
+  | zero => intro k v hk; simp [toBE, fromBE, Nat.mod_one]
+  | succ w ih =>
+    intro k v hk
+    by_cases hkw : k ≤ w
+    · have hlen : (toBE w (v / 256)).length = w := by
+        clear ih hk hkw
+        induction w generalizing v with
+        | zero => rfl
+        | succ w ih' => simp [toBE, ih']
+      rw [toBE, List.drop_append_of_le_length (by omega), fromBE_append_single, ih k (v / 256) hkw]
+      have : w + 1 - k = (w - k) + 1 := by omega
+      rw [this, Nat.pow_succ]
+      have hb : (UInt8.ofNat (v % 256)).toNat = v % 256 := by
+        simp [UInt8.toNat_ofNat]
+      rw [hb]
+      -- (v / 256 % 256^(w-k)) * 256 + v % 256 = v % (256^(w-k) * 256)
+      rw [Nat.mul_comm (256 ^ (w - k)) 256, Nat.mod_mul, Nat.add_comm, Nat.mul_comm]
+    · have hk' : k = w + 1 := by omega
+      subst hk'
+      have hlen : (toBE (w + 1) v).length = w + 1 := by
+        clear ih hk hkw
+        induction w generalizing v with
+        | zero => simp [toBE]
+        | succ w ih' => rw [toBE]; simp [ih']
+      rw [List.drop_of_length_le (by omega)]
+      simp [fromBE, Nat.mod_one]
+
+/-- **uint<M> / address / bool words round-trip.** -/
+theorem uint_word_roundtrip (info : ElemInfo) (m n : Nat) (hc : codecOf info.dec = .uint)
+    (hm : m ≤ 256) (hm8 : m % 8 = 0) (hn : n < 2 ^ m) :
+    decodeElem info m (toBE 32 n) 0 0 = .ok (.int n) := by
+  have hlenw : ∀ (w v : Nat), (toBE w v).length = w := by
+    intro w
+    induction w with
+    | zero => intro v; rfl
+    | succ w ih => intro v; rw [toBE]; simp [ih]
+  have hlen : (toBE 32 n).length = 32 := hlenw 32 n
+  have hfrom : fromBE ((toBE 32 n).drop (32 - m / 8)) = n := by
+    rw [fromBE_drop_toBE 32 (32 - m / 8) n (by omega)]
+    have hw : 32 - (32 - m / 8) = m / 8 := by omega
+    have hpow : 256 ^ (m / 8) = 2 ^ m := by
+      have h8 : 8 * (m / 8) = m := by omega
+      rw [show (256 : Nat) = 2 ^ 8 from rfl, ← Nat.pow_mul, h8]
+    rw [hw, hpow, Nat.mod_eq_of_lt hn]
+  generalize toBE 32 n = blk at hlen hfrom ⊢
+  unfold decodeElem
+  rw [hc]
+  simp only []
+  have hguard : ¬ (0 + 32 > blk.length) := by rw [hlen]; omega
+  rw [if_neg hguard]
+  have hsl : slice? blk (0 + (32 - m / 8)) (0 + 32) = .ok (blk.drop (32 - m / 8)) := by
+    unfold slice?
+    have hcond : 0 + (32 - m / 8) ≤ 0 + 32 ∧ 0 + 32 ≤ blk.length := ⟨by omega, by rw [hlen]; omega⟩
+    rw [if_pos hcond]
+    have : (blk.drop (0 + (32 - m / 8))).take (0 + 32 - (0 + (32 - m / 8))) = blk.drop (32 - m / 8) := by
+      have e1 : 0 + (32 - m / 8) = 32 - m / 8 := Nat.zero_add _
+      rw [e1]
+      apply List.take_of_length_le
+      rw [List.length_drop, hlen]
+      omega
+    rw [this]
+  rw [hsl]
+  show Outcome.ok (CV.int ((fromBE (blk.drop (32 - m / 8)) : Nat) : Int)) = Outcome.ok (CV.int (n : Int))
+  rw [hfrom]
+
+/-- **A JSON number only when it is exact.** -/
+theorem number_only_if_exact (z : Int) :
+    (∃ s, serInt .numberIfFits z = .num s) ↔ (-9007199254740991 ≤ z ∧ z ≤ 9007199254740991) := by
+  have hdef : serInt .numberIfFits z =
+      if z > 9007199254740991 ∨ z < -9007199254740991 then J.str (asciiBytes (toString z).toList) else J.num (toString z) := rfl
+  rw [hdef]
+  constructor
+  · rintro ⟨s, h⟩
+    by_cases hc : z > 9007199254740991 ∨ z < -9007199254740991
+    · rw [if_pos hc] at h; cases h
+    · omega
+  · intro h
+    have : ¬ (z > 9007199254740991 ∨ z < -9007199254740991) := by omega
+    exact ⟨toString z, by rw [if_neg this]⟩
+
+theorem exact_bound : (9007199254740991 : Int) = 2 ^ 53 - 1 := by decide
+
+end FFS.Props.C03
